@@ -52,11 +52,23 @@ def c05(res, rng, tier):
         for p in range(6):
             elines.append("enc %d %s - %s" % (p, su, toks)); emeta.append((i, p, dump))
     eimpl, emodel = run_enc("C05", elines)
+    # theorem redecode (Proofs/RoundTrip.v): inside its fragment the model's decode -> reify -> encode
+    # chain must produce the bytes the implementation produces for the value it decoded
+    chain = C.modelrun(["reenc %d %s %s %s" % (emeta[j][1], meta[emeta[j][0]][2], meta[emeta[j][0]][3], meta[emeta[j][0]][1].hex())
+                        for j in range(len(elines))])
+    in_fragment = 0
     dlines, dmeta = [], []
     for j, eo in enumerate(eimpl):
         i, p, dump = emeta[j]
         tag, d, pd, su = meta[i]
         cls, hexb, attrs = enc_obs(eo)
+        if chain[j] != "NA":
+            in_fragment += 1
+            if chain[j] != "ok " + hexb:
+                res.violation("theorem redecode: model chain decode->reify->encode gives %s, implementation re-encodes to %s %s (protocol %d)"
+                              % (chain[j][:120], cls, hexb[:120], p),
+                              {"kind": "correspondence", "theorem": "RoundTrip.redecode / Norm.reify", "input_hex": d.hex(), "pydict": pd, "strict": su,
+                               "protocol": p, "model": chain[j][:600], "impl": eo[:600]})
         if cls in ("err p0persid", "err p0unicode") and p == 0: continue
         if cls == "err p0123global" and p <= 3: continue
         if cls != "ok":
@@ -91,7 +103,7 @@ def c05(res, rng, tier):
     res.coverage.update({
         "evaluations": len(lines) + len(elines) + len(dlines), "distinct_nontrivial": nontriv,
         "rule": "the C04 input stream (corpus, grammar pickles, mutations, soup, bombs, short sweep programs) x 4 configs; every successful first result (acyclic, below the dump budget, without a call of the bytearray / bytes builtins) is re-encoded at protocols 0..5 with the matching StrictUnicode and decoded again with the same configuration; NaNs are one class at protocol 0; the three documented limitations are allowed errors; non-trivial = completed round trips",
-        "programs": len(lines), "disagreements_checked": len(elines) + len(dlines), "successful_decodes": ndec, "input_tags": tag_hist(meta)})
+        "programs": len(lines), "disagreements_checked": len(elines) + len(dlines), "successful_decodes": ndec, "reencodings_inside_theorem_fragment": in_fragment, "reencodings_total": len(elines), "input_tags": tag_hist(meta)})
     res.samples = [{"input_hex": meta[emeta[j][0]][1].hex()[:80], "protocol": emeta[j][1], "value": emeta[j][2][:120]}
                    for j in range(0, len(elines), max(1, len(elines) // 6))]
 
